@@ -74,6 +74,11 @@ class CmaStrategy(HoloPyObject):
                  parallel='auto'):
         self.npixels = npixels
         self.popsize = popsize
+        # keep every constructor argument, so that the strategy can be
+        # saved and rebuilt
+        self.resample_pixels = resample_pixels
+        self.parent_fraction = parent_fraction
+        self.weight_function = weight_function
         if resample_pixels:
             self.new_pixels = self.npixels
         else:
